@@ -125,8 +125,13 @@ def gen(tier, rng, harness=None):
         else:
             lo = (rng.choice([0, 1]) << 63) | (el << 52) | fl
         lines.append("!flt.rt ppc_fp128 %016X%016X" % (hi, lo))
+    # NaNs of both signs (the sign is that of the high double), the largest double plus half a unit in its last place (the sum rounds to infinity as a double: the
+    # high double must stay the largest double), and their negatives
+    for hi, lo in ((0x7FF8000000000000, 0), (0xFFF8000000000000, 0), (0xFFF0000000000001, 0), (0x7FF8000000000000, 0x3FF0000000000000),
+                   (0x7FEFFFFFFFFFFFFF, 0x7C90000000000000), (0xFFEFFFFFFFFFFFFF, 0xFC90000000000000), (0x7FEFFFFFFFFFFFFF, 0x7C8FFFFFFFFFFFFF), (0xFFEFFFFFFFFFFFFF, 0xFC8FFFFFFFFFFFFF)):
+        lines.append("!flt.rt ppc_fp128 %016X%016X" % (hi, lo))
     # the recorded finding C10-ppc-fp128-pair-recanonicalised: a low double of -0, and a pair whose high double is not the double nearest to the sum
-    lines += ["!flt.rt ppc_fp128 3FF00000000000008000000000000000", "!flt.rt ppc_fp128 3FF00000000000003FF0000000000000"]
+    lines += ["!flt.rt ppc_fp128 3FF00000000000008000000000000000", "!flt.rt ppc_fp128 3FF00000000000003FF0000000000000", "!flt.rt ppc_fp128 7FF0000000000000FFF0000000000000"]
     # values that need EVERY significand bit (odd p-bit integers scaled by small powers of two) and are still printed in decimal notation: the reader of
     # decimal literals must round at exactly p bits (half 11, float 24, double 53)
     import struct
